@@ -22,7 +22,7 @@ COMPONENTS = {"real": ["geonet.Router", "geonet.LocationTable", "geonet header c
 ASSUMPTIONS = ["single-hop topology: every station is in radio range of every other (relaying is C06)",
                "requests with the store-carry-forward bit set are only checked for safety (buffering is unimplemented in the stack)",
                "ordering is demanded per (sender, receiver) among broadcast-type requests and among unicast requests separately"]
-EXPECTED_PROBES = ["secure-run-request", "delivered:shb", "delivered:gbc", "delivered:gac", "delivered:guc", "guc-via-ls", "guc-while-ls-pending",
+EXPECTED_PROBES = ["relookup-second-ls", "secure-run-request", "delivered:shb", "delivered:gbc", "delivered:gac", "delivered:guc", "guc-via-ls", "guc-while-ls-pending",
                    "area-receiver-outside", "hemi-neg"]
 
 TYPES = ["shb", "gbc", "gac", "guc"]
@@ -110,6 +110,39 @@ def gen_plan(run_seed: int, tier: str) -> dict:
         ops.append(op)
     rs = random.Random(run_seed ^ 0x5EC5EC)
     secure = rs.random() < 0.12
+    relookup = (not lossy) and n >= 3 and rs.random() < 0.12
+    if relookup:
+        # A destination that falls silent, whose LocTE at the sender expires and is purged, is looked up AGAIN by the location service
+        # while the destination still remembers the sender (duplicate packet list alive): unicast, silence, third-party reception, unicast.
+        life = 5
+        for s_ in stations:
+            s_["mib"].pop("itsGnBeaconServiceRetransmitTimer", None)
+            s_["mib"]["itsGnLifetimeLocTE"] = life
+        i_, j_ = rs.sample(range(n), 2)
+        k_ = rs.choice([x for x in range(n) if x not in (i_, j_)])
+        ops = [o for o in ops if o.get("st") != j_ and not (o["op"] == "req" and o["type"] == "guc")][: rs.randint(0, 6)]
+        t = max([o["t"] for o in ops] + [0]) + 1000
+
+        def guc(tt, tagx):
+            return {"op": "req", "t": tt, "st": i_, "type": "guc", "btp": "b", "dport": rs.choice([p_ for p_ in stations[j_]["ports"]]), "dpinfo": 7,
+                    "payload": npl.rand_payload(rs, 0xB0000000 + tagx, 80), "tc": rs.randrange(64), "hl": rs.choice([0, 2, 5]), "lt": None, "dest": j_}
+        ops.append(guc(t, 1))
+        for q in range(1, 5):
+            ops.append({"op": "req", "t": t + q * 1_400_000, "st": i_, "type": "shb", "btp": "b", "dport": rs.choice(ports), "dpinfo": 0,
+                        "payload": npl.rand_payload(rs, 0xB1000000 + q, 30), "tc": 0, "hl": 1, "lt": None})
+        t2 = t + life * 1_000_000 + 1_300_000
+        ops.append({"op": "req", "t": t2, "st": k_, "type": "shb", "btp": "b", "dport": rs.choice(ports), "dpinfo": 0,
+                    "payload": npl.rand_payload(rs, 0xB2000000, 30), "tc": 0, "hl": 1, "lt": None})
+        ops.append(guc(t2 + rs.randint(5_000, 300_000), 2))
+        # every station's GNSS keeps refreshing its ego position vector (1 Hz), so no PV in the exchange is older than the LocTE lifetime
+        for x in range(n):
+            tt = 300_000 + rs.randint(0, 300_000)
+            while tt < t2 + 400_000:
+                ops.append({"op": "gnss", "t": tt, "st": x, "lat": stations[x]["pos"][0], "lon": stations[x]["pos"][1],
+                            "speed": stations[x]["speed"], "track": stations[x]["track"]})
+                tt += 1_000_000
+        ops.sort(key=lambda o: o["t"])
+        t = ops[-1]["t"]
     if secure:
         # MIB variant "security on with a common trust root": every station holds a ticket and knows the others' tickets
         for i, s_ in enumerate(stations):
@@ -124,7 +157,7 @@ def gen_plan(run_seed: int, tier: str) -> dict:
     ls_wait = (mib.get("itsGnLocationServiceRetransmitTimer", 1000) * (mib.get("itsGnLocationServiceMaxRetrans", 10) + 2)) * 1000
     cfg = {"t0_us": 1_767_225_600_000_000 + r.randrange(0, 86_400_000) * 1000, "net_seed": r.getrandbits(32),
            "latency_us": [100, 2000], "fifo": True, "topology": "mesh", "run_limit_us": t + ls_wait + 2_000_000,
-           "fault_class": "lossy" if lossy else "none", "hemi": hemi}
+           "fault_class": "lossy" if lossy else "none", "hemi": hemi, "relookup": relookup}
     if secure:
         cfg["secure"] = True
         cfg["pki_seed"] = rs.randrange(3)
@@ -256,10 +289,22 @@ def judge(sim: C01Sim) -> None:
             elif "LSREQ" in kinds:
                 ls_state = "ls"
                 sim.probe("guc-via-ls")
+                if any(p_["op"]["st"] == op["st"] and p_["op"].get("dest") == op["dest"] and p_.get("ls_state") == "ls" and p_["idx"] < o["idx"] for p_ in reqs):
+                    sim.probe("relookup-second-ls")
             else:
                 ls_state = "ls-pending"
                 sim.probe("guc-while-ls-pending")
             o["ls_state"] = ls_state
+            # a position vector older than itsGnLifetimeLocTE makes the location table entry built from it expire at once: such a
+            # request is outside the property's premise (a live GNSS feed) and its non-delivery is not judged
+            life_us = int(st.spec["mib"].get("itsGnLifetimeLocTE", 20)) * 1_000_000
+            ages = []
+            for who in ([op["st"], op["dest"]] if isinstance(op["dest"], int) else [op["st"]]):
+                last = max([0] + [g["op"]["t"] for g in hist.ops if g["op"]["op"] == "gnss" and g["op"]["st"] == who and g["idx"] < o["idx"]])
+                ages.append(op["t"] - last)
+            o["stale_pv"] = max(ages) + 1_500_000 >= life_us
+            if o["stale_pv"]:
+                sim.probe("guc-stale-pv-excused")
             if not plan["config"].get("secure"):
                 key_base = key_base + "/" + ls_state
             o["key_base"] = key_base
@@ -340,7 +385,7 @@ def judge(sim: C01Sim) -> None:
                 continue
             if not got:
                 outcome.append("m")
-                if not lossy and not scf:
+                if not lossy and not scf and not o.get("stale_pv"):
                     sim.violate(ID, "not-delivered", key_base, f"op {o['idx']}: {typ} payload ({len(o['payload'])} B) from station {op['st']} "
                                 f"never reached port {op['dport']} on station {rcv.idx}; confirm={o['conf']}")
                 continue
